@@ -18,6 +18,7 @@ import (
 	"github.com/grafana/cog/internal/jennies/typescript"
 	"github.com/grafana/cog/internal/languages"
 	"github.com/grafana/cog/internal/veneers/rewrite"
+	"github.com/grafana/cog/internal/verifhook"
 	cogyaml "github.com/grafana/cog/internal/yaml"
 	"gopkg.in/yaml.v3"
 )
@@ -210,9 +211,15 @@ func (pipeline *Pipeline) LoadSchemas(ctx context.Context) (ast.Schemas, error) 
 		return nil, nil
 	}
 
+	if verifhook.Enabled {
+		verifhook.Emit("schemas.before_consolidate", allSchemas)
+	}
 	allSchemas, err = allSchemas.Consolidate()
 	if err != nil {
 		return nil, err
+	}
+	if verifhook.Enabled {
+		verifhook.Emit("schemas.consolidated", allSchemas)
 	}
 
 	// Apply common and final compiler passes
